@@ -1,4 +1,14 @@
-(* Parser/ChainStream.v — the stream phase law (WIP) *)
+(* Parser/ChainStream.v — proof of [stream_phase_stmt] of Parser/ChainTargets.v: the stream phase of one request.
+     Part 0  finite facts about the order of the input streams of a role (cmp_input_streams), what an accepted
+             set_stream(Some s) means (set_stream_ok_cases: the same stream, or a LATER one)
+     Part 1  delivery per selected stream over runs of xops: [owed p sg v] (what the parser still owes for stream
+             sg) only ever loses, at its front, the bytes handed out while sg was selected (xrun_owed)
+     Part 2  the position law: [pos] = the remaining bytes are (rest of the current record) ++ enc_rcds todo ++ t
+             for a suffix todo of the record list, no record passed so far stopping the selected stream;
+             kept by every step of the abstract parse loop (pos_law, mirroring Part B2 of StreamFinal.v), by every
+             caller operation (cstep_pos), by a selection of a later stream (set_pos: a record that does not stop
+             an earlier stream does not stop a later one), hence over every run (xrun_pos)
+     Part 3  Theorem stream_phase, and an instance showing the hypotheses are satisfiable. *)
 From Coq Require Import ZArith ZifyBool ZifyNat ZifyN.
 From FV Require Import Base.Bytes Base.BytesLemmas Gen.Generated Codec.Varint Codec.VarintProofs
   Codec.NV Codec.NVProofs Codec.Header Codec.Bodies Codec.Vars Codec.ProtoProofs
@@ -481,3 +491,198 @@ Proof.
   - destruct Hres as [Hr|[e Hr]]; discriminate Hr.
 Qed.
 End Position.
+
+(* ---- the position law on the index-level model, over runs of xops ---- *)
+Section PositionConcrete.
+Variable maxc : N.
+Variables role id : N.
+Variable rs : list rcd.
+Variable t : bytes.
+Hypothesis Hrs : Forall rcd_ok rs.
+
+Definition PosC (p : sp) (u : bytes) : Prop := Pos role id rs t (abs p) u.
+
+Lemma cstep_pos p c u : sp_inv p -> cop_legal p c ->
+  (is_parse (XC c) = true -> good role id rs (abs p)) ->
+  PosC p (cfed_of c ++ u) -> PosC (fst (fst (cstep maxc p c))) u.
+Proof.
+  intros Hsp Hleg Hg HP. pose proof Hsp as [HRI _].
+  destruct c as [new dest|k| |k]; cbn [cfed_of cstep cop_legal] in *.
+  - destruct (sparse_refines maxc p new dest HRI) as [Ga _].
+    pose proof (sparse_call_no_panic maxc p new dest Hsp Hleg) as Hnp.
+    destruct (sparse maxc p new dest) as [p' s|p' e s|n]; cbn [absres fst] in *.
+    + apply (pos_law maxc role id rs t Hrs (abs p) new dest (abs p') s u (Hg eq_refl)); [left; exact Ga|exact HP].
+    + apply (pos_law maxc role id rs t Hrs (abs p) new dest (abs p') s u (Hg eq_refl));
+        [right; exists e; exact Ga|exact HP].
+    + exfalso. apply (Hnp n). reflexivity.
+  - cbn [fst app] in *. unfold PosC. rewrite (consume_stream_abs p k HRI). exact HP.
+  - cbn [fst app] in *. unfold PosC. rewrite (compress_abs p HRI). exact HP.
+  - cbn [fst app] in *. unfold PosC. rewrite (consume_output_abs p k HRI). exact HP.
+Qed.
+
+Lemma set_pos p s p1 u : sp_inv p -> r_role (sreq p) = role -> set_stream p (Some s) = SetOk p1 ->
+  PosC p u -> PosC p1 u.
+Proof.
+  intros Hsp Hrole E HP.
+  destruct (set_stream_call maxc p (Some s) p1 Hsp E) as (_ & _ & _ & _ & Hraw & _ & _ & Hsame & Hdiff).
+  destruct (set_stream_rem p (Some s) p1 E) as [Hpr Hpd].
+  destruct (set_stream_ok_cases p s p1 E) as [Eq|(Eq & cur & Es & Ec)].
+  { rewrite (Hsame Eq). exact HP. }
+  destruct (Hdiff Eq) as (Hs1 & _ & _).
+  unfold PosC, Pos, abs in *. cbn [a_B a_space a_parsed a_raw a_out a_req a_stream a_prem a_pad a_st] in *.
+  rewrite Hraw, Hpr, Hpd, Hs1. rewrite Es in HP.
+  destruct HP as (done & todo & b & E1 & Hd & Hb & Hw).
+  exists done, todo, b. split; [exact E1|]. split; [|split; assumption].
+  rewrite Hrole in Ec. apply (content_open_later role id cur s done Ec Hd).
+Qed.
+
+Lemma good_of p c : sp_inv p -> r_role (sreq p) = role -> r_id (sreq p) = id ->
+  closes_streams role id rs -> stream p = Some c -> In c (role_input_streams role) ->
+  good role id rs (abs p).
+Proof.
+  intros Hsp Hrole Hid Hcl Es Hin. unfold good. cbn [abs a_req a_stream].
+  split; [exact Hrole|]. split; [exact Hid|].
+  split.
+  - pose proof (sp_inv_stream_ok p Hsp) as Hok. unfold stream_ok in Hok. rewrite Es in *. exact Hok.
+  - rewrite Es. unfold closes_streams in Hcl. rewrite Forall_forall in Hcl. apply Hcl. exact Hin.
+Qed.
+
+Lemma xrun_pos xs : forall p u pf ds, sp_inv p -> r_role (sreq p) = role -> r_id (sreq p) = id ->
+  closes_streams role id rs ->
+  match stream p with Some c => In c (role_input_streams role) | None => existsb is_parse xs = false end ->
+  PosC p (xfed xs ++ u) -> xlegal maxc p xs -> xrun maxc p xs = Some (pf, ds) ->
+  sp_inv pf /\ sreq pf = sreq p /\ len (buffer pf) = len (buffer p) /\ PosC pf u.
+Proof.
+  induction xs as [|x r IH]; intros p u pf ds Hsp Hrole Hid Hcl Hst HP Hleg Hrun.
+  - cbn [xrun] in Hrun. injection Hrun as <- <-.
+    split; [exact Hsp|]. split; [reflexivity|]. split; [reflexivity|exact HP].
+  - destruct x as [c|s]; cbn [xrun xlegal] in Hrun, Hleg.
+    + destruct Hleg as [Hc Hr].
+      destruct (cstep_law maxc p c Hsp Hc) as (I1 & _ & B1 & _ & (_ & S1 & Q1 & _)).
+      change (a_stream (abs ?x)) with (stream x) in S1. change (a_req (abs ?x)) with (sreq x) in Q1.
+      destruct (xrun maxc (fst (fst (cstep maxc p c))) r) as [[pf' ds']|] eqn:Er; [|discriminate Hrun].
+      injection Hrun as <- <-.
+      change (xfed (XC c :: r)) with (cfed_of c ++ xfed r) in HP. rewrite <- app_assoc in HP.
+      assert (Hg : is_parse (XC c) = true -> good role id rs (abs p)).
+      { intros Hip. destruct (stream p) as [c0|] eqn:Es.
+        - apply (good_of p c0); assumption.
+        - cbn [existsb] in Hst. rewrite Hip in Hst. discriminate Hst. }
+      pose proof (cstep_pos p c (xfed r ++ u) Hsp Hc Hg HP) as HP1.
+      assert (Hst1 : match stream (fst (fst (cstep maxc p c))) with
+                     | Some c0 => In c0 (role_input_streams role)
+                     | None => existsb is_parse r = false end).
+      { rewrite S1. destruct (stream p) as [c0|]; [exact Hst|].
+        cbn [existsb] in Hst. apply orb_false_iff in Hst. apply Hst. }
+      destruct (IH _ u _ _ I1 (eq_trans (f_equal r_role Q1) Hrole) (eq_trans (f_equal r_id Q1) Hid) Hcl Hst1 HP1 Hr Er)
+        as (If & Qf & Bf & Pf).
+      split; [exact If|]. split; [congruence|]. split; [congruence|exact Pf].
+    + destruct (set_stream p (Some s)) as [p1| |] eqn:Es; try contradiction.
+      destruct (set_stream_call maxc p (Some s) p1 Hsp Es) as (I1 & Q1 & B1 & _ & _ & _ & _ & Hsame & Hdiff).
+      change (xfed (XSel s :: r)) with (xfed r) in HP.
+      pose proof (set_pos p s p1 (xfed r ++ u) Hsp Hrole Es HP) as HP1.
+      assert (Hst1 : match stream p1 with
+                     | Some c0 => In c0 (role_input_streams role)
+                     | None => existsb is_parse r = false end).
+      { destruct (set_stream_ok_cases p s p1 Es) as [Eq|(Eq & cur & Ecur & Ec)].
+        - rewrite (Hsame Eq). destruct (stream p) as [c0|]; [exact Hst|]. cbn [optN_eqb] in Eq. discriminate Eq.
+        - destruct (Hdiff Eq) as (Hs1 & _). rewrite Hs1. rewrite Hrole in Ec. apply (cmp_gt_in role s cur Ec). }
+      destruct (IH _ u _ _ I1 (eq_trans (f_equal r_role Q1) Hrole) (eq_trans (f_equal r_id Q1) Hid) Hcl Hst1 HP1 Hleg Hrun)
+        as (If & Qf & Bf & Pf).
+      split; [exact If|]. split; [congruence|]. split; [congruence|exact Pf].
+Qed.
+End PositionConcrete.
+
+(* ================================================================================================ *)
+(* Part 3: the stream phase law                                                                      *)
+(* ================================================================================================ *)
+Lemma role_input_is_input role sg : In sg (role_input_streams role) -> is_input_stream sg = true.
+Proof.
+  intros H. destruct (role_streams_cases role) as [Hr|[Hr|Hr]]; rewrite Hr in H; cbn [In] in H.
+  - destruct H as [<-|[]]. reflexivity.
+  - destruct H.
+  - destruct H as [<-|[<-|[]]]; reflexivity.
+Qed.
+
+Theorem stream_phase : forall maxc, stream_phase_stmt maxc.
+Proof.
+  intros maxc rp r sp0 rs t xs pf ds u Hok Hst E0 Hrs Hcl Hnp Hw Hleg Hrun.
+  destruct (into_stream_parser_inv rp r Hok Hst)
+    as (p0 & E0' & Hsp & Hq0 & Hs0 & HB0 & _ & _ & _ & _ & _ & Habs).
+  rewrite E0 in E0'. injection E0' as <-.
+  set (role := r_role r) in *. set (id := r_id r) in *.
+  assert (HP0 : PosC role id rs t sp0 (xfed xs ++ u)).
+  { unfold PosC, Pos. rewrite Habs. cbn [a_B a_space a_parsed a_raw a_out a_req a_stream a_prem a_pad a_st].
+    rewrite Hw. exists [], rs, []. split; [reflexivity|]. split; [reflexivity|]. split; reflexivity. }
+  assert (Hst0 : match stream sp0 with
+                 | Some c => In c (role_input_streams role)
+                 | None => existsb is_parse xs = false end).
+  { rewrite Hs0. destruct (next_input_stream role None) as [e|] eqn:En.
+    - apply next_input_none_in. exact En.
+    - apply Hnp. reflexivity. }
+  destruct (xrun_pos maxc role id rs t Hrs xs sp0 u pf ds Hsp (f_equal r_role Hq0) (f_equal r_id Hq0) Hcl Hst0 HP0 Hleg Hrun)
+    as (If & Qf & Bf & Pf).
+  split; [exact If|]. split; [congruence|]. split; [congruence|].
+  split.
+  - intros sg Hin.
+    destruct (xrun_owed maxc sg xs sp0 u pf ds Hsp Hleg Hrun) as (more & Hm).
+    assert (Hsel : sel_ok (Some sg)) by (apply (role_input_is_input role); exact Hin).
+    assert (Hwhole : CF role id (Some sg) false 0 0 (enc_rcds rs ++ t) = content_rcds role id (Some sg) rs).
+    { rewrite (CF_rcds role id (Some sg) rs t Hrs Hsel).
+      unfold closes_streams in Hcl. rewrite Forall_forall in Hcl. rewrite (Hcl sg Hin). apply app_nil_r. }
+    destruct (into_stream_parser_targets maxc rp r sp0 Hok Hst E0 (xfed xs ++ u)) as (HK & _ & HF).
+    fold role id in HK, HF. rewrite Hw in HK, HF.
+    change (content_from role id (content_fuel ?w) ?s false 0 0 ?w) with (CF role id s false 0 0 w) in HK, HF.
+    unfold owed in Hm. rewrite Hq0 in Hm. fold role in Hm.
+    destruct (optN_eqb (stream sp0) (Some sg)) eqn:Eq.
+    + apply optN_eqb_eq in Eq. rewrite Hs0 in Eq. rewrite HK, Eq, Hwhole in Hm. exists more. exact Hm.
+    + destruct (stream sp0) as [cur|].
+      * destruct (cmp_input_streams role sg (Some cur)) as [[| |]|];
+          try (symmetry in Hm; apply app_eq_nil in Hm; destruct Hm as [-> _]; eexists; cbn [app]; reflexivity).
+        rewrite HF, Hwhole in Hm. exists more. exact Hm.
+      * symmetry in Hm. apply app_eq_nil in Hm. destruct Hm as [-> _]. eexists. cbn [app]. reflexivity.
+  - intros Hb. unfold is_record_boundary in Hb. apply andb_true_iff in Hb. destruct Hb as [Hb1 Hb2].
+    apply N.eqb_eq in Hb1. apply N.eqb_eq in Hb2.
+    unfold PosC, Pos, abs in Pf. cbn [a_B a_space a_parsed a_raw a_out a_req a_stream a_prem a_pad a_st] in Pf.
+    destruct Pf as (done & todo & b & E1 & _ & Hlb & Hwf).
+    assert (Hnil : b = []) by (apply len_zero_nil; lia). subst b.
+    exists done, todo. split; [exact E1|exact Hwf].
+Qed.
+
+(* ---- the hypotheses are satisfiable: the Filter request of StreamFinal.v, both epochs in one run ---- *)
+Definition exs_xs : list xop := map XC exf_ops1 ++ [XSel RT_Data] ++ map XC exf_ops2.
+
+Example exs_closes : closes_streams (r_role exf_r) (r_id exf_r) exf_rs.
+Proof. unfold closes_streams. vm_compute. repeat constructor. Qed.
+
+Example exs_legal : xlegal 10 exf_sp0 exs_xs.
+Proof.
+  vm_compute. repeat split; try discriminate; try (repeat constructor);
+    try (intros H; exfalso; apply H; reflexivity).
+Qed.
+
+Example exs_wire : held exf_rp ++ xfed exs_xs ++ [] = enc_rcds exf_rs ++ [].
+Proof. vm_compute. reflexivity. Qed.
+
+Example exs_run_values :
+  match xrun 10 exf_sp0 exs_xs with
+  | Some (pf, ds) => (delivered (Some RT_Stdin) ds, delivered (Some RT_Data) ds, raw_bytes pf, is_record_boundary pf)
+                     = ([97; 98; 99], [120], enc_rcds [mkRcd RT_Data 1 [] []], true)
+  | None => False
+  end.
+Proof. vm_compute. reflexivity. Qed.
+
+Example exs_stream_phase pf ds : xrun 10 exf_sp0 exs_xs = Some (pf, ds) ->
+  sp_inv pf /\ sreq pf = exf_r /\ len (buffer pf) = 128 /\
+  (exists more, [97; 98; 99] = delivered (Some RT_Stdin) ds ++ more) /\
+  (exists more, [120; 121; 122] = delivered (Some RT_Data) ds ++ more) /\
+  (is_record_boundary pf = true ->
+     exists done todo, exf_rs = done ++ todo /\ raw_bytes pf ++ [] = enc_rcds todo ++ []).
+Proof.
+  intros Hrun. destruct exf_parser_ok as (Hok & Hst & E0).
+  destruct (stream_phase 10 exf_rp exf_r exf_sp0 exf_rs [] exs_xs pf ds [] Hok Hst E0 exf_rcds_ok exs_closes
+              ltac:(intros H; vm_compute in H; discriminate H) exs_wire exs_legal Hrun) as (I & Q & B & D & P).
+  split; [exact I|]. split; [exact Q|]. split; [exact B|].
+  split; [apply (D RT_Stdin); vm_compute; auto|]. split; [apply (D RT_Data); vm_compute; auto|exact P].
+Qed.
+
+Print Assumptions stream_phase.
